@@ -177,7 +177,8 @@ theorem duo_listen {cfg : Cfg} {G : Nat} {n : Net} {x y : Nat} {stx sty : NetSta
     seen_set_other n.bus y x now d.yx
   refine ⟨_, inc, c, upSt sty c, hd', hpe, htx, ?_⟩
   have hs := d.solo
-  refine ⟨⟨hs.rate, hs.drops, hs.own, hs.ends, by simp only [List.length_set]; exact hs.xl,
+  refine ⟨⟨hs.rate, hs.drops, hs.corrupt, hs.chained, hs.live, hs.pos, (by simp only; rw [hsx]; exact hs.done), hs.ends,
+      by simp only [List.length_set]; exact hs.xl,
       by simp only [List.length_set]; exact hs.xs, by simp only; rw [List.getElem?_set_ne d.yx]; exact hs.gx,
       hs.online, hs.alive, hs.inv, hs.son, hs.rx, hs.stamp, hs.prate, hs.pslot⟩,
     d.stg, d.view, ?_, List.getElem?_set_self d.yl, d.yx, by simp only [List.length_set]; exact d.ys,
@@ -221,8 +222,8 @@ theorem duo_claimant {cfg : Cfg} {G : Nat} {n : Net} {x y : Nat} {stx sty : NetS
   rw [hs.gx] at hst0
   cases hst0
   have hdel : (n.bus.deliver x now).1 = { n.bus with seen := n.bus.seen.set x now } := by
-    rw [Bus.deliver_allOwn n.bus x now hs.own]
-  have hdel2 : (n.bus.deliver x now).2 = [] := by rw [Bus.deliver_allOwn n.bus x now hs.own]
+    rw [hs.deliver hr now (Int.le_of_lt hown)]
+  have hdel2 : (n.bus.deliver x now).2 = [] := by rw [hs.deliver hr now (Int.le_of_lt hown)]
   rw [hdel, hdel2] at hpoll0
   rw [hdel] at hbus
   have hxy : x ≠ y := Ne.symm d.yx
@@ -284,7 +285,8 @@ theorem duo_claimant {cfg : Cfg} {G : Nat} {n : Net} {x y : Nat} {stx sty : NetS
     have hrate : 0 < n.bus.rate := by rw [hs.rate]; exact hr
     obtain ⟨old', e1, e2, e3, e4, e5, e6⟩ := Bus.send_txs { n.bus with seen := n.bus.seen.set x now } x now b hs.drops hrate
     have hspec := Bus.send_spec { n.bus with seen := n.bus.seen.set x now } x now b hs.drops
-    have hends : ∀ o ∈ n.bus.txs, cEnd cfg o ≤ now := fun o ho => by have := hs.ends o ho; omega
+    have hends : ∀ o ∈ n.bus.txs, cEnd cfg o ≤ now := fun o ho => by
+      have := hs.ends o ho (d.lone.own o ho); omega
     have hsub : old'.Sublist n.bus.txs := by
       have : (Bus.send { n.bus with seen := n.bus.seen.set x now } x now b).txs =
           (n.bus.txs.filter fun t => decide (n.bus.txEnd t + 100000 > now)) ++
@@ -500,7 +502,7 @@ theorem duo_init {cfg : Cfg} {n : Net} {x y : Nat} {stx sty : NetStation} {lx ly
   obtain ⟨hbus, st0, hst0, hset, -⟩ := Net.poll_bus n x now n' [] c hp
   rw [hs.gx] at hst0
   cases hst0
-  rw [Bus.deliver_allOwn n.bus x now hs.own, htx] at hbus
+  rw [hs.deliver hr now (Int.le_of_lt hown), htx] at hbus
   simp only at hbus
   have hxy : x ≠ y := Ne.symm h.yx
   have hrate : 0 < n.bus.rate := by rw [hs.rate]; exact hr
@@ -580,7 +582,7 @@ theorem cs2_wait_x {cfg : Cfg} {n : Net} {x y : Nat} {stx sty : NetStation} {lx 
   obtain ⟨coll, hst⟩ := h.lisx
   obtain ⟨n', c, hp, htx, hS', hseen⟩ := lone_listen_wait h.solo hok coll hst now hown hw
   obtain ⟨hbus, st0, hst0, hset, -⟩ := Net.poll_bus n x now n' [] c hp
-  rw [Bus.deliver_allOwn n.bus x now h.solo.own, htx] at hbus
+  rw [h.solo.deliver hok.rate now (Int.le_of_lt hown), htx] at hbus
   simp only at hbus
   have hxy : x ≠ y := Ne.symm h.yx
   have hgy : n'.stations[y]? = some sty := by
@@ -606,7 +608,8 @@ theorem cs2_wait_y {cfg : Cfg} {n : Net} {x y : Nat} {stx sty : NetStation} {lx 
   simp only at hpe
   rw [hsame] at hpe
   have hs0 := h.solo
-  refine ⟨_, _, hpe, rfl, ⟨⟨hs0.rate, hs0.drops, hs0.own, hs0.ends, by simp only [List.length_set]; exact hs0.xl,
+  refine ⟨_, _, hpe, rfl, ⟨⟨hs0.rate, hs0.drops, hs0.corrupt, hs0.chained, hs0.live, hs0.pos,
+      (by simp only; rw [seen_set_other _ _ _ _ h.yx]; exact hs0.done), hs0.ends, by simp only [List.length_set]; exact hs0.xl,
       by simp only [List.length_set]; exact hs0.xs, by simp only; rw [List.getElem?_set_ne h.yx]; exact hs0.gx,
       hs0.online, hs0.alive, hs0.inv, hs0.son, hs0.rx, hs0.stamp, hs0.prate, hs0.pslot⟩,
     h.lisx, h.empty, h.corrupt, List.getElem?_set_self h.yl, h.yx, by simp only [List.length_set]; exact h.ys,
